@@ -84,6 +84,12 @@ fn user_rows(d: usize, p: PosPattern) -> Vec<Row> {
         Row::new("京", 1, 1, 9000, P_NOUN).headword("亰").reading("キョウ"),
         // U9: its inline reference to 京 means the word of its own dictionary (own entries come first)
         with_pos(Row::new(&format!("{}京京", a), 1, 1, -500, P_NOUN).splits("C", "U0/京,名詞,普通名詞,一般,*,*,*,キョウ", "*")),
+        // U10: a part of speech with empty components - not the same as the system's `名詞,普通名詞,一般,*,*,*`
+        {
+            let mut r = Row::new(&format!("{}空", a), 1, 1, -500, P_NOUN);
+            r.pos = ["名詞".into(), "普通名詞".into(), "一般".into(), "".into(), "".into(), "".into()];
+            r
+        },
     ]
 }
 
